@@ -422,7 +422,9 @@ func runCachePlan(t *testing.T, planAny any, ctl Ctl) *Result {
 		if !w.destr {
 			w.c.Destroy()
 		}
-		s.Drain(func(n string) bool { return strings.HasPrefix(n, "go:") || strings.HasPrefix(n, "actor:") })
+		// every parked task is terminated at its yield point: a task released in pass-through mode
+		// while it waits for a lock that was leaked would block on the real mutex for ever
+		s.Drain(func(n string) bool { return true })
 		for i := 0; i < 20; i++ {
 			synctest.Wait()
 			n := cache.VerifDrainIntervalChan(w.c)
